@@ -84,6 +84,31 @@ func (o *C05Oracle) AfterAction(s *Sim, a *Action, pre, post *chain.Snapshot, re
 	}
 }
 
+// Boundary: an order that has been handed to providers and has not started storage can only end
+// through a cancel or through the timeout schedule; if no future timeout check names it, the
+// clause "when it times out the payer is refunded" can never come true for it.
+func (o *C05Oracle) Boundary(s *Sim, sn *chain.Snapshot) {
+	for id := range o.before {
+		ord, ok := sn.Orders[id]
+		if !ok || ord.Status == ordertypes.OrderCompleted || ord.Status == ordertypes.OrderPending || ord.Operation == 3 {
+			continue
+		}
+		reachable := false
+		for th, list := range sn.Timeouts {
+			if int64(th) > sn.Height {
+				for _, oid := range list {
+					if oid == id {
+						reachable = true
+					}
+				}
+			}
+		}
+		if !reachable {
+			s.FailT("unstarted-order-outside-the-timeout-schedule", "", map[string]string{"timeout": fmt.Sprint(ord.Timeout)}, "h=%d order %d (status %d, timeout %d) has not started storage and no future timeout check names it: it can never time out and its payer can never be refunded that way", sn.Height, id, ord.Status, ord.Timeout)
+		}
+	}
+}
+
 func (o *C05Oracle) markDirty(dataId string) {
 	for _, r := range o.before {
 		if r.dataId == dataId {
